@@ -7,7 +7,7 @@ import Py4hwV.Build.Model
      op addIn|addOut|addInOut <obj> <name> <wire>
      op rename <wire> <name>      op reparent <wire> <obj>      op reparentAndRename <wire> <obj> <name>
      op newIface <obj> <name>     op ifS2K|ifK2S <iface> <name>
-     op addIfSource|addIfSink <obj> <name|-> <iface>             op disconnect <wire> <obj>
+     op addIfSource|addIfSink <obj> <name|-> <iface>             op disconnect <wire> <obj>       op wires <parent> <prefix> <num>
         -> ok | err <kind …>
      opseq <op> ; <op> ; …     a constructor body: stops at the first raise
      rawobj <parent|_> <name> <prim> <children k=v,…> <wires k=v,…> <in> <out> <io>     (load a snapshot of a real hierarchy)
@@ -70,6 +70,7 @@ def parseOp (ws : List String) : Option Op :=
   | ["addIfSource", o, n, i] => do let o ← o.toNat?; let i ← i.toNat?; pure (.addIfSource o (if n = "-" then "" else n) i)
   | ["addIfSink", o, n, i] => do let o ← o.toNat?; let i ← i.toNat?; pure (.addIfSink o (if n = "-" then "" else n) i)
   | ["disconnect", w, o] => do let w ← w.toNat?; let o ← o.toNat?; pure (.disconnect w o)
+  | ["wires", p, n, k] => do let p ← p.toNat?; let k ← k.toNat?; pure (.wires p n k)
   | _ => none
 
 def kindOf (s : String) : PKind := if s = "in" then .inp else if s = "out" then .out else .inout
